@@ -7,7 +7,7 @@ ID = "C05"
 THEOREMS = "Properties/C05.v"
 HARNESS = ["c05"]
 LEVEL = "proof"
-READY = False
+READY = True
 TRUSTED_BASE = [
     "Coq 8.16.1 kernel (coqc, full .vo build); vm_compute in Examples and in the correspondence evaluation",
     "no axioms: Print Assumptions reports 'Closed under the global context' for every theorem of Properties/C05.v",
@@ -196,13 +196,30 @@ def nontrivial(case):
     return case.get("depth", 0) >= 2
 
 
-def to_coq(case, res):
+def str_sum(bs):
+    h = 0
+    for b in bs:
+        h = (h * 257 + b + 1) % 2305843009213693951
+    return h
+
+
+def to_coq(case, res, with_input=True):
     obs = []
+    reps = [json.dumps(r["rep"]) for r in res["vals"]]
     for v, r in zip(case["vals"], res["vals"]):
         g = r["gob"]
-        obs.append("mkObs %s %s %s %s %s %s" % (
-            V.coq_cval(v), V.coq_cval(r["rep"], True), vlib.coq_N(max(r["hash"], 0)), V.coq_bytes(r["str"]),
-            "(Some %s)" % V.coq_cval(g["rep"], True) if g.get("ok") else "None", vlib.coq_N(g.get("hash", 0))))
+        sb = r["str"].encode("utf8")
+        if not g.get("ok"):
+            gob = "GobFail"
+        elif json.dumps(g["rep"]) == json.dumps(r["rep"]):
+            gob = "GobSame"
+        else:
+            gob = "(GobRep %s)" % V.coq_cval(g["rep"], True)
+        same_in = json.dumps(v) == json.dumps(r["rep"])      # nothing to build: canon(build x) vs canon x still checked
+        obs.append("mkObs %s %s %s %s %s %s %s" % (
+            "(Some %s)" % V.coq_cval(v) if with_input or same_in else "None",
+            V.coq_cval(r["rep"], True), vlib.coq_N(max(r["hash"], 0)), vlib.coq_N(len(sb)), vlib.coq_N(str_sum(sb)),
+            gob, vlib.coq_N(g.get("hash", 0))))
     eqm = vlib.coq_list([vlib.coq_list([vlib.coq_bool(x == 1) for x in row]) for row in res["eq"]])
     ops = []
     for op, out in zip(case["ops"], res.get("ops") or []):
@@ -211,7 +228,9 @@ def to_coq(case, res):
         elif op[0] == "get":
             ops.append("(CGetOp %d, RGet %s)" % (op[1], "(Some (%d)%%Z)" % out[1] if out[0] == "some" else "None"))
         elif op[0] == "keys":
-            ops.append("(CKeysOp, RKeys %s)" % vlib.coq_list([V.coq_cval(x, True) for x in out[1]]))
+            # Keys() returns the very Values that were passed to Set: name them by their index in the case
+            idx = [reps.index(json.dumps(x)) if json.dumps(x) in reps else len(reps) for x in out[1]]
+            ops.append("(CKeysOp, RKeys %s)" % vlib.coq_list(["%d%%nat" % k for k in idx]))
         else:
             ops.append("(CClearOp, RNone)")
     return "(%s, %s, %s)" % (vlib.coq_list(obs), eqm, vlib.coq_list(ops))
@@ -223,7 +242,7 @@ CHECK_NAMES = {1: "rep_okb of the dumped representation", 2: "canon(rep) = canon
 
 def run(ctx):
     rng = ctx.rng
-    n = 260 if ctx.tier == "quick" else 6000
+    n = 400 if ctx.tier == "quick" else 5000
     if ctx.replay:
         rp = json.load(open(ctx.replay))
         cases = [rp["case"]] if rp.get("case") else corpus()
@@ -271,15 +290,24 @@ def run(ctx):
     ctx.extra["pair_classes"] = pair_classes
     ctx.samples = [{"vals": c["vals"][:3], "eq": c["_res"]["eq"], "hashes": [x["hash"] for x in c["_res"]["vals"]][:3],
                     "strings": [x["str"][:80] for x in c["_res"]["vals"]][:3]} for c in cases[:4]]
-    # tie B: the model evaluated inside Coq on the dumped representations
+    # tie B: the model evaluated inside Coq on the dumped representations (4 shards at a time)
     if ctx.coq_ok:
-        shard = 250
-        for s in range(0, len(good), shard):
-            part = good[s:s + shard]
+        from concurrent.futures import ThreadPoolExecutor
+        shard = 60
+        parts = [good[s:s + shard] for s in range(0, len(good), shard)]
+
+        def ev(k):
+            part = parts[k]
             body = ("From PGV Require Import C05.Model.\n"
-                    "Definition cases : list case :=\n [" + ";\n ".join(to_coq(c, c["_res"]) for c in part) + "].\n"
-                    "Definition M := Eval vm_compute in mismatches_from 0 cases.\nPrint M.\n")
-            rc, out, err = vlib.coq_eval("C05_cases_%d" % s, body)
+                    "Definition M := Eval vm_compute in mismatches_from 0\n [" +
+                    ";\n ".join(to_coq(c, c["_res"], with_input=(c["id"] % 2 == 0 or c.get("kind") == "corpus")) for c in part) + "].\nPrint M.\n")
+            rc, out, err = vlib.coq_eval("C05_cases_%d" % k, body)
+            return k, rc, out, err
+
+        with ThreadPoolExecutor(max_workers=4) as ex:
+            results = list(ex.map(ev, range(len(parts))))
+        for k, rc, out, err in results:
+            part = parts[k]
             mm = vlib.parse_nat_list(out, "M") if rc == 0 else None
             if mm is None:
                 ctx.breaks.append({"what": "correspondence evaluation C05_cases did not compile", "detail": (out + err)[-2000:]})
@@ -289,6 +317,7 @@ def run(ctx):
                 ctx.breaks.append({"what": "correspondence C05/Model.v vs distsys/tla differs: " + CHECK_NAMES.get(code % 10, "?"),
                                    "case": {k2: v for k2, v in c.items() if not k2.startswith("_")},
                                    "impl": c["_res"], "model": "check %d failed" % (code % 10)})
+        ctx.extra["model_evaluated_cases"] = len(good)
     if ctx.replay:
         print("replay: oracle", [oracle(c, c["_res"]) for c in cases][:3], "correspondence breaks", [b["what"] for b in ctx.breaks])
 
